@@ -2,7 +2,7 @@
 //   drv_c15 rt <seed> <n>                 random meshes / point clouds through {Obj,Ply,Stl}Encoder::EncodeToBuffer -> *Decoder::DecodeFromBuffer
 //   drv_c15 gen <seed> <n> <dir>          writes n OBJ and PLY files (for the command-line tool flow)
 //   drv_c15 cmp <fmt> <a> <b> <label>     loads two files of format fmt and records their comparison (tool flow: original vs obj->drc->obj)
-// Values are matched with the format's tolerance: OBJ text has 6 decimals (|a-b| <= 0.5e-6 + 2 ulp32), PLY / STL are bit-exact.  The matching only
+// Values are matched with the format's tolerance: OBJ text has 6 decimals (|a-b| <= 0.5e-6 + 1 ulp32), PLY / STL are bit-exact.  The matching only
 // assigns ids; the worst residual is reported in units of 1e-9 and judged by TLC.
 #include <cmath>
 #include <fstream>
@@ -26,7 +26,7 @@ static double ulp32(double a) { float f = (float)std::abs(a); if (f == 0) return
 struct Matcher {
   std::vector<std::vector<double>> vals;   // unique input values (as doubles per component)
   std::vector<std::string> keys;
-  double worst_excess_e9 = 0;              // max over matched components of (|a-b| - 2 ulp32(a)) in 1e-9 units
+  double worst_excess_e9 = 0;              // max over matched components of (|a-b| - 1 ulp32(a)) in 1e-9 units
   int id_in(const PointAttribute *att, PointIndex p) {
     const std::string k = raw_key(att, p);
     for (size_t i = 0; i < keys.size(); ++i) if (keys[i] == k) return (int)i;
@@ -50,7 +50,7 @@ struct Matcher {
       if (vals[i].size() != v.size()) continue;
       double ex = 0; bool ok = true;
       for (size_t c = 0; c < v.size(); ++c) {
-        const double d = std::abs(vals[i][c] - v[c]) - 2 * ulp32(vals[i][c]);
+        const double d = std::abs(vals[i][c] - v[c]) - 1 * ulp32(vals[i][c]);   // measured on the unchanged tree: at most 0.48 ulp beyond 0.5e-6 (3M random values)
         if (d > 0.5e-6 * 1.0000001) ok = false;
         ex = std::max(ex, d);
       }
@@ -92,7 +92,7 @@ static void emit_io(const char *fmt, const std::string &label, const PointCloud 
       .raw("out", "{\"np\":" + std::to_string(outp ? outp->num_points() : 0) + ",\"faces\":" + jarr(fo) + ",\"atts\":" + oa + "],\"pt\":" + op + "]}").end();
 }
 
-static Geom gen_io_geom(vrt::Rng &r, bool mesh, bool with_color, bool keep_dups = false) {
+static Geom gen_io_geom(vrt::Rng &r, bool mesh, bool with_color, bool keep_dups = false, bool zero_area = false) {
   Geom g;
   g.is_mesh = mesh;
   g.pc.reset(mesh ? new Mesh() : new PointCloud());
@@ -130,6 +130,21 @@ static Geom gen_io_geom(vrt::Rng &r, bool mesh, bool with_color, bool keep_dups 
       if (c == a || c == b) c = (c + 1) % np;
       fc[0] = PointIndex(a); fc[1] = PointIndex(b); fc[2] = PointIndex(c);
       g.mesh()->AddFace(fc);
+    }
+    if (zero_area) {   // a triangle soup may hold zero-area triangles: one with a repeated corner, one with three collinear corners
+      Mesh::Face fc;
+      const int a = r.range(0, np - 1), b = (a + 1) % np;
+      fc[0] = PointIndex(a); fc[1] = PointIndex(a); fc[2] = PointIndex(b);
+      g.mesh()->AddFace(fc);
+      if (np >= 3) {
+        const PointAttribute *pa = g.pc->GetNamedAttribute(GeometryAttribute::POSITION);
+        float p0[3], p1[3];
+        pa->GetValue(pa->mapped_index(PointIndex(0)), p0); pa->GetValue(pa->mapped_index(PointIndex(1)), p1);
+        float mid[3] = {p0[0] + (p1[0] - p0[0]) * 0.5f, p0[1] + (p1[1] - p0[1]) * 0.5f, p0[2] + (p1[2] - p0[2]) * 0.5f};
+        const_cast<PointAttribute *>(pa)->SetAttributeValue(pa->mapped_index(PointIndex(2)), mid);
+        fc[0] = PointIndex(0); fc[1] = PointIndex(2); fc[2] = PointIndex(1);
+        g.mesh()->AddFace(fc);
+      }
     }
   }
   if (keep_dups) {
@@ -194,7 +209,7 @@ static int run_rt(uint64_t seed, long n) {
         emit_io("ply", label, *g.pc, mesh, st.ok() ? o.get() : nullptr, mesh, eok && st.ok(), st.ok() ? "" : st.error_msg(), kPlyTypes, false);
       }
       if (mesh) {  // STL (triangle soup of positions)
-        Geom g = gen_io_geom(r, true, false);
+        Geom g = gen_io_geom(r, true, false, false, r.coin(1, 6));
         EncoderBuffer eb;
         StlEncoder fresh_e; StlEncoder &enc = reuse ? reuse_se : fresh_e;
         const Status es = enc.EncodeToBuffer(*g.mesh(), &eb);
